@@ -564,8 +564,13 @@ template<typename F> struct Program {
     // tear down in random order
     while (!pool.empty()) {
       S* s = pool[r.below(pool.size())].get();
-      destroy(s, "destroy");
-      verify_all("destroy");
+      try {
+        destroy(s, "destroy");
+        verify_all("destroy");
+      } catch (const std::exception& e) {
+        fail(fam + "|unexpected-exception", std::string("exception escaped during tear-down: ") + e.what() + " trace=" + trace);
+        if (find_idx(s) >= 0) { s->constructed = false; pool.erase(pool.begin() + find_idx(s)); }
+      }
     }
     c19ctx().set_op("end-of-case");
     // allocator: nothing remains
